@@ -94,6 +94,17 @@ def dispatch(func, args, kwargs):
     return h(func, args, kwargs)
 
 
+@handles("_make_subclass")
+def _make_subclass(func, args, kwargs):
+    cls, data = args[0], args[1]
+    rg = args[2] if len(args) > 2 else kwargs.get("require_grad", kwargs.get("requires_grad", False))
+    s = Sym.make(P(data).copy() if False else P(data), data.dtype)
+    s._g = {"requires_grad": bool(rg)}
+    if cls is torch.nn.Parameter:
+        s._is_param = True
+    return s
+
+
 FACTORY_RANDOM = {"randn", "rand", "randint", "randperm", "multinomial", "randn_like", "rand_like", "normal", "bernoulli"}
 
 
@@ -292,7 +303,7 @@ def _rsub(func, args, kwargs):
         _binop(lambda x, y: T.sub(y, x))(torch.sub, (args[0], args[1]), kwargs)
 
 
-@handles("__rtruediv__")
+@handles("__rtruediv__", "__rdiv__")
 def _rdiv(func, args, kwargs):
     return _binop(lambda x, y: s_div(y, x))(torch.div, (args[0], args[1]), kwargs)
 
@@ -376,19 +387,87 @@ def floatfunc(f):
     return h
 
 
+def _find_ite(t, depth=0):
+    """an ite subterm reachable through arithmetic operators only"""
+    if not z3.is_app(t) or depth > 6:
+        return None
+    k = t.decl().kind()
+    if k == z3.Z3_OP_ITE:
+        return t
+    if k in (z3.Z3_OP_ADD, z3.Z3_OP_SUB, z3.Z3_OP_MUL, z3.Z3_OP_UMINUS, z3.Z3_OP_DIV):
+        for c in t.children():
+            r = _find_ite(c, depth + 1)
+            if r is not None:
+                return r
+    return None
+
+
 def s_exp(t):
     if is_num(t) and num(t) == 0:
         return rv(1)
+    ctx = C()
+    it = _find_ite(t)
+    if it is not None and z3.is_real(it):
+        c_, a_, b_ = it.children()
+        ta = z3.simplify(z3.substitute(t, (it, a_)), som=True)
+        tb = z3.simplify(z3.substitute(t, (it, b_)), som=True)
+        return z3.If(c_, s_exp(ta), s_exp(tb))
+    key = ("exp", t.get_id())
+    hit = ctx.memo.get(key)
+    if hit is not None:
+        return hit[1]
+    if not (z3.is_app(t) and t.decl().kind() == z3.Z3_OP_UNINTERPRETED):
+        ts = z3.simplify(t, som=True, push_ite_arith=True)
+        if z3.is_app(ts) and ts.decl().kind() == z3.Z3_OP_ITE:
+            c_, a_, b_ = ts.children()
+            e = z3.If(c_, s_exp(a_), s_exp(b_))
+            ctx.memo[key] = (t, e)
+            return e
+        if z3.is_app(ts) and ts.decl().kind() == z3.Z3_OP_UNINTERPRETED and ts.decl().name() == "logf":
+            # exp(c * log(u) / c) etc.: the exponent IS log(u)
+            lg = s_log(ts.arg(0)) if True else ts
+            e = s_exp(lg)
+            ctx.memo[key] = (t, e)
+            return e
+    e = expf(t)
+    ctx.memo[key] = (t, e)
+    ctx.axiom([e], e > 0)
+    try:
+        rest, numr, den = T.exp_of_loglin(z3.simplify(t, som=True))
+        rs = z3.simplify(rest)
+        if is_num(rs) and num(rs) == 0 and not (is_num(numr) and is_num(den)):
+            # exp(sum c_i log p_i) = prod p_i^c_i   (instance of the exp/log laws; holds where the logs are defined)
+            _, terms = T.loglin(z3.simplify(t, som=True))
+            ctx.axiom([e], z3.Implies(z3.And([p > 0 for _, p in terms]), e * den == numr))
+    except Unsupported:
+        pass
     if z3.is_app(t) and t.decl().kind() == z3.Z3_OP_UNINTERPRETED and t.decl().name() == "logf":
         arg = t.arg(0)
-        # exp(log(u)) = u where defined; keep definedness through the log term's partial entry
-        e = expf(t)
-        C().axiom([e], z3.Implies(arg > 0, e == arg))
-        C().axiom([e], e > 0)
-        return e
-    e = expf(t)
-    C().axiom([e], e > 0)
-    C().axiom([e], logf(e) == t)
+        ctx.axiom([e], z3.Implies(arg > 0, e == arg))     # exp(log u) = u where defined
+    else:
+        ctx.axiom([e], logf(e) == t)
+    # exponent laws against the exponentials already present on this path (instances of exp(a+b) = exp(a) exp(b))
+    exps = ctx.notes.setdefault("exps", [])
+    for s_, es in exps[-24:]:
+        try:
+            tot = z3.simplify(s_ + t)
+            if is_num(tot) and num(tot) == 0:
+                ctx.axiom([e, es], e * es == 1); continue
+            dif = z3.simplify(s_ - t)
+            if is_num(dif) and num(dif) == 0:
+                ctx.axiom([e, es], e == es); continue
+            if is_num(z3.simplify(t - 2 * s_)) and num(z3.simplify(t - 2 * s_)) == 0:
+                ctx.axiom([e, es], e == es * es)
+            elif is_num(z3.simplify(s_ - 2 * t)) and num(z3.simplify(s_ - 2 * t)) == 0:
+                ctx.axiom([e, es], es == e * e)
+            elif is_num(z3.simplify(t + 2 * s_)) and num(z3.simplify(t + 2 * s_)) == 0:
+                ctx.axiom([e, es], e * es * es == 1)
+            elif is_num(z3.simplify(s_ + 2 * t)) and num(z3.simplify(s_ + 2 * t)) == 0:
+                ctx.axiom([e, es], es * e * e == 1)
+        except z3.Z3Exception:
+            pass
+    exps.append((t, e))
+    ctx.atoms.append(("exp", t, e, None))
     return e
 
 
@@ -491,7 +570,26 @@ def _opaque_unary(name):
     return floatfunc(lambda t: f(t))
 
 
-for _n in ("erf", "atan", "tan", "sin", "cos", "erfinv"):
+def s_atan(u):
+    f = T.opaque("atanf")
+    a = f(u)
+    ctx = C()
+    ctx.axiom([a], z3.And(a > -T.PI / 2, a < T.PI / 2, T.opaque("tanf")(a) == u))
+    return a
+
+
+def s_tan(t):
+    r = T.opaque("tanf")(t)
+    C().axiom([r], z3.Implies(z3.And(t > -T.PI / 2, t < T.PI / 2), T.opaque("atanf")(r) == t))
+    return r
+
+
+T.DERIV_RULES["atanf"] = lambda arg, app: T.div(rv(1), T.add(rv(1), T.mul(arg, arg)))
+T.DERIV_RULES["tanf"] = lambda arg, app: T.add(rv(1), T.mul(app, app))
+handles("atan")(floatfunc(s_atan))
+handles("tan")(floatfunc(s_tan))
+
+for _n in ("erf", "sin", "cos", "erfinv"):
     handles(_n)(_opaque_unary(_n + "f"))
 
 
